@@ -257,6 +257,11 @@ def run_shard(desc):
                     nm, kd, hid = rnd_names[t]
                     plans[t].append({"op": "meet", "k": mk, "n": T})
                     meta[t].append(None)
+                    if r % 5 == 2 and t == r % T:
+                        # a bystander operator with a precedence below every built-in level (legal: it simply never binds), mentioned by no
+                        # program: the call must return and leave every registry usable for the other threads (C13u)
+                        plans[t].append({"op": "reg_infix", "name": "nb%dr%d" % (h, r), "prec": rnd.choice([-5, -1, 0]), "type": "CALC", "assoc": "LEFT", "beh": {"id": 7, "ret": "tag"}})
+                        meta[t].append(None)
                     plans[t].append(reg_of(nm, kd, hid))
                     meta[t].append(None)
                     plans[t].append({"op": "exec", "text": prog_of(nm, kd), "nosnap": True})
